@@ -233,7 +233,18 @@ EXTRA7 = {
     "C19": " Wave 7: dynamic (unsized) lists among the arguments, the size-0 wildcard.",
     "C20": " Wave 7: the recording is also handed to the replay as a whole-Value copy of the buffer.",
 }
+EXTRA8 = {
+    "C04": " Wave 8: explicit invalidation of fixed-shape collection endpoints (over scalar leaves); the parent's own value() must agree with what its valid scalar children read.",
+    "C06": " Wave 8: passive-tagged inputs in the generated dataflow programs.",
+    "C01": " Wave 8: passive-tagged inputs in the generated dataflow programs (their producers are still ranked first).",
+    "C08": " Wave 8: the loops also live inside every child of a two-key map_.",
+    "C12": " Wave 8: a branch node fed by a list / bundle assembled structurally from the branch arguments.",
+    "C13": " Wave 8: list-shaped targets; the consumer's iteration accessors and per-child modified flags in retarget cycles.",
+    "C17": " Wave 8: the push source may book a timer of its own in its start hook; pushes before that time must not make the loop forget it.",
+}
 for _k, _v in EXTRA.items():
+    CLAIMED[_k]["text"] += _v
+for _k, _v in EXTRA8.items():
     CLAIMED[_k]["text"] += _v
 for _k, _v in EXTRA7.items():
     CLAIMED[_k]["text"] += _v
